@@ -1,6 +1,7 @@
 import SfVerif.Lemmas.Ring2
 import SfVerif.Gen.Consts
 import SfVerif.Lemmas.GenFnsLogs
+import SfVerif.Lemmas.Frame2
 /-! C05 — the host reads back the most recent log bytes, in order, at any moment. -/
 namespace SfVerif.Props.C05
 open SfVerif SfVerif.Gen SfVerif.Ring
@@ -28,7 +29,7 @@ theorem C05_tail_length (cap : Nat) (xs : List UInt8) :
 
 /-- **every copy plan** (bytes to skip, up to two destination segments) covers exactly the
     retained tail of the message and lies inside the log buffer; the two segments do not overlap -/
-theorem C05_plan_sound (cap : Nat) (l : Logs) (n : Nat) (h : Inv cap l) :
+theorem C05_plan_sound (cap : Nat) (l : Logs) (n : Nat) (h : Ring.Inv cap l) :
     let p := (Logs.append cap l n).2
     p.src + p.len1 + p.len2 = n ∧ p.len1 + p.len2 = min n cap ∧
     p.dst1 + p.len1 ≤ cap ∧
@@ -50,7 +51,7 @@ theorem C05_plan_sound (cap : Nat) (l : Logs) (n : Nat) (h : Inv cap l) :
 
 /-- the ring invariant holds in every reachable state -/
 theorem C05_invariant (msgs : List (List UInt8)) :
-    Inv LOG_CAPACITY (msgs.foldl (Logs.log LOG_CAPACITY) (Logs.init LOG_CAPACITY)) :=
+    Ring.Inv LOG_CAPACITY (msgs.foldl (Logs.log LOG_CAPACITY) (Logs.init LOG_CAPACITY)) :=
   (read_is_tail LOG_CAPACITY (by decide) msgs).1
 
 /-- non-vacuity: a small ring, three messages, the middle one longer than the ring -/
@@ -68,5 +69,50 @@ theorem C05_model_is_the_source_text (l : Logs) (n : Nat) (hoff : l.offset ≤ L
      let m := Logs.readPtrs LOG_CAPACITY l
      some m.1 = r.1 ∧ m.2.1 = r.2.1 ∧ m.2.2.1 = r.2.2.1 ∧ m.2.2.2 = r.2.2.2) :=
   ⟨gen_append_eq l n hoff, gen_read_ptrs_eq l⟩
+
+/-- the messages logged since the invocation started, after one more operation -/
+def msgsStep (ms : List (List UInt8)) : Op → List (List UInt8)
+  | .init _ | .deint _ _ | .de _ _ | .serrt _ _ => []
+  | .log len seed => ms ++ [(msgBytes len seed).toList]
+  | _ => ms
+
+/-- … after a history -/
+def msgsSince (ms : List (List UInt8)) : List Op → List (List UInt8)
+  | [] => ms
+  | op :: rest => msgsSince (msgsStep ms op) rest
+
+theorem logsAfter_fold (ms : List (List UInt8)) (op : Op) :
+    logsAfter (ms.foldl (Logs.log LOG_CAPACITY) (Logs.init LOG_CAPACITY)) op =
+      (msgsStep ms op).foldl (Logs.log LOG_CAPACITY) (Logs.init LOG_CAPACITY) := by
+  cases op <;> simp [logsAfter, msgsStep, List.foldl_append]
+
+theorem logs_run (w : Nat) : ∀ (ops : List Op), (∀ op ∈ ops, op.splitLog = false) →
+    ∀ (t : Thread) (ms : List (List UInt8)),
+      t.ctx.logs = ms.foldl (Logs.log LOG_CAPACITY) (Logs.init LOG_CAPACITY) →
+      (Thread.run w t ops).1.ctx.logs =
+        (msgsSince ms ops).foldl (Logs.log LOG_CAPACITY) (Logs.init LOG_CAPACITY) := by
+  intro ops
+  induction ops with
+  | nil => intro _ t ms h; exact h
+  | cons op rest ih =>
+    intro hs t ms h
+    simp only [Thread.run, msgsSince]
+    apply ih (fun o ho => hs o (List.mem_cons_of_mem _ ho))
+    rw [Thread.step_logs w t op (hs op List.mem_cons_self), h, logsAfter_fold]
+
+/-- **C05 at the level of a whole thread, every history**: at any moment of any history of protocol
+    operations on a thread — reads, writes, interning, typed (de)serialisation, new invocations, log
+    calls of any lengths in between — what the host reads back is exactly the last
+    `min(total, capacity)` bytes logged since the current invocation started (log calls issued as
+    one call; the split request / copy form is covered by `C05_plan_sound` and, across threads, C14). -/
+theorem C05_every_history (w : Nat) (ops : List Op) (hs : ∀ op ∈ ops, op.splitLog = false) :
+    Logs.read LOG_CAPACITY (Thread.run w {} ops).1.ctx.logs = lastN LOG_CAPACITY (msgsSince [] ops).flatten := by
+  have h := logs_run w ops hs {} [] rfl
+  rw [h]
+  exact C05_read_is_tail _
+
+/-- non-vacuity: a read between two log calls, a new invocation, one more log call -/
+example : msgsSince [] [.log 3 1, .root, .log 2 5, .init #[0xc0], .log 1 9] = [(msgBytes 1 9).toList] := by
+  rfl
 
 end SfVerif.Props.C05
